@@ -47,9 +47,19 @@ def primes64 : List Nat := [
 
 /-- `x` is the first 32 bits of the fractional part of the `r`-th root of `p` -/
 def IsFrac32OfRoot (r p x : Nat) : Prop :=
-  x < 2 ^ 32 ∧ ∃ n, n < p + 1 ∧ (n * 2 ^ 32 + x) ^ r ≤ p * 2 ^ (32 * r) ∧ p * 2 ^ (32 * r) < (n * 2 ^ 32 + x + 1) ^ r
+  x < 2 ^ 32 ∧ ∃ n, (n * 2 ^ 32 + x) ^ r ≤ p * 2 ^ (32 * r) ∧ p * 2 ^ (32 * r) < (n * 2 ^ 32 + x + 1) ^ r
 
-instance (r p x : Nat) : Decidable (IsFrac32OfRoot r p x) := by unfold IsFrac32OfRoot; exact inferInstance
+/-- decidable form: the integer part searched below 32 (enough for every prime below 1024) -/
+def isFrac32OfRootB (r p x : Nat) : Bool :=
+  decide (x < 2 ^ 32) && (List.range 32).any fun n =>
+    decide ((n * 2 ^ 32 + x) ^ r ≤ p * 2 ^ (32 * r)) && decide (p * 2 ^ (32 * r) < (n * 2 ^ 32 + x + 1) ^ r)
+
+theorem isFrac32OfRoot_of_B (r p x : Nat) (h : isFrac32OfRootB r p x = true) : IsFrac32OfRoot r p x := by
+  unfold isFrac32OfRootB at h
+  rw [Bool.and_eq_true, decide_eq_true_iff, List.any_eq_true] at h
+  obtain ⟨hx, n, _, hn⟩ := h
+  rw [Bool.and_eq_true, decide_eq_true_iff, decide_eq_true_iff] at hn
+  exact ⟨hx, n, hn⟩
 
 /-- `primes64` lists exactly the primes below 312, in order, and there are 64 of them:
     they are the first sixty-four primes. -/
